@@ -1,3 +1,4 @@
+CONSTANT Want = {"c05"}
 INIT TraceInit
 NEXT TraceNext
 INVARIANTS C05_URIs
